@@ -117,7 +117,7 @@ func (c *chainStub) block(no uint64) *types.Block {
 		PrevBlockHash: bytes.Repeat([]byte{9}, 32), BlocksRootHash: c.w.root0}}
 }
 func (c *chainStub) GetBlockByNo(no types.BlockNo) (*types.Block, error) { return c.block(no), nil }
-func (c *chainStub) GetBestBlock() (*types.Block, error)               { return c.block(execBlock), nil }
+func (c *chainStub) GetBestBlock() (*types.Block, error)                 { return c.block(execBlock), nil }
 
 func must(err error) {
 	if err != nil {
@@ -254,28 +254,28 @@ var protocolOnly = map[string]string{
 // argument alphabets, simplest first. Key "callback.param" overrides "param".
 // "<nil>" is the NULL pointer.
 var alphabet = map[string][]string{
-	"key":           {"k1", "k9", "", "_sv_meta-len_arr"},
-	"value":         {`"v2"`, ""},
-	"blkno":         {"<nil>", "5", "0", "-1", "zz"},
-	"contractId":    {encB, encA, encU, encN, "badaddr", "namedcontrct"},
-	"fname":         {"w", "v", "nosuch", ""},
-	"args":          {"[]", `[1,"x",{"_bignum":"5"}]`, "{bad"},
-	"amount":        {"", "7", "0", "100000000 aergo", "-1", "x1", "1.5 aergo"},
-	"gas":           {"0"},
-	"luaPrint.args": {"hello"},
-	"arg":           {"abc", "0x6162", "0xzz"},
-	"msg":           {"0x" + strings.Repeat("11", 32), "zz"},
-	"sig":           {"0x" + strings.Repeat("22", 65), "0x3006020101020101", "zz"},
-	"addr":          {encA, "0x" + strings.Repeat("33", 20), "x"},
-	"data":          {"abc", "0x61"},
-	"contract":      {deploySource, encB, encA, "not a source", encN},
-	"min":           {"1"},
-	"max":           {"10", "1"},
-	"name":          {"ev", strings.Repeat("n", 65)},
-	"luaEvent.args": {"[]", strings.Repeat("a", 4097)},
-	"address":       {encA, "short"},
-	"pubkey":        {"0x" + strings.Repeat("02", 33), "0xzz", "0x00"},
-	"name_or_address": {encA, "aergo.system", "namedcontrct", "x"},
+	"key":                      {"k1", "k9", "", "_sv_meta-len_arr"},
+	"value":                    {`"v2"`, ""},
+	"blkno":                    {"<nil>", "5", "0", "-1", "zz"},
+	"contractId":               {encB, encA, encU, encN, "badaddr", "namedcontrct"},
+	"fname":                    {"w", "v", "nosuch", ""},
+	"args":                     {"[]", `[1,"x",{"_bignum":"5"}]`, "{bad"},
+	"amount":                   {"", "7", "0", "100000000 aergo", "-1", "x1", "1.5 aergo"},
+	"gas":                      {"0"},
+	"luaPrint.args":            {"hello"},
+	"arg":                      {"abc", "0x6162", "0xzz"},
+	"msg":                      {"0x" + strings.Repeat("11", 32), "zz"},
+	"sig":                      {"0x" + strings.Repeat("22", 65), "0x3006020101020101", "zz"},
+	"addr":                     {encA, "0x" + strings.Repeat("33", 20), "x"},
+	"data":                     {"abc", "0x61"},
+	"contract":                 {deploySource, encB, encA, "not a source", encN},
+	"min":                      {"1"},
+	"max":                      {"10", "1"},
+	"name":                     {"ev", strings.Repeat("n", 65)},
+	"luaEvent.args":            {"[]", strings.Repeat("a", 4097)},
+	"address":                  {encA, "short"},
+	"pubkey":                   {"0x" + strings.Repeat("02", 33), "0xzz", "0x00"},
+	"name_or_address":          {encA, "aergo.system", "namedcontrct", "x"},
 	"luaGetBalance.contractId": {"<nil>", encB, encU, encN, "badaddr"},
 	// "multicall" with function name "" runs the built-in multicall code on the caller's state
 	"luaDelegateCallContract.contractId": {encB, encA, "multicall", encU, encN, "badaddr"},
@@ -1231,7 +1231,7 @@ func run(ctx *xplor.Ctx) {
 		// 2. sequences of two: first op under pcall (so that the second runs
 		// whatever the first returned), over the reduced alphabets
 		red := allOps(small)
-		first := allOps(1)
+		first := allOps(small)
 		for _, a := range first {
 			for _, b := range red {
 				if n++; !ctx.Mine(n) || ctx.Expired() {
